@@ -365,6 +365,21 @@ pub fn vp8_filter_parameters(
     )
 }
 
+/// One intra predictor of vp8.rs on a caller-supplied workspace (see `vp8::verif_predict` for `kind`).
+#[allow(clippy::too_many_arguments)]
+pub fn vp8_predict(
+    kind: u8,
+    a: &mut [u8],
+    size: usize,
+    x0: usize,
+    y0: usize,
+    stride: usize,
+    above: bool,
+    left: bool,
+) {
+    crate::vp8::verif_predict(kind, a, size, x0, y0, stride, above, left);
+}
+
 /// largest |intermediate value| of the inverse transforms since the last call of
 /// `take_max_transform_value` (reference decoders compute them in 16-bit SIMD lanes; a stream
 /// that makes them exceed 16 bits has no defined reconstruction)
